@@ -144,7 +144,10 @@ class KrylovBased:
         )
         if self.E_shift is not None:
             if isinstance(self.H, OrthogonalNpcLinearOperator):
-                self.H.orig_operator = ShiftNpcLinearOperator(self.H.orig_operator, self.E_shift)
+                # shift inside the projection, on a new wrapper: the operator of the caller stays as it is
+                self.H = OrthogonalNpcLinearOperator(
+                    ShiftNpcLinearOperator(self.H.orig_operator, self.E_shift), [v.copy() for v in self.H.ortho_vecs]
+                )
             else:
                 self.H = ShiftNpcLinearOperator(self.H, self.E_shift)
         self._cache = []
